@@ -2,6 +2,7 @@ package synth
 
 import (
 	"fmt"
+	"sort"
 	"strconv"
 	"strings"
 
@@ -827,6 +828,18 @@ func GenTypes(t *rapid.T, o *Opts) *Spec {
 			{Names: []string{g.constName(root, "Untyped", 1, true, "untypedName2")}, Exprs: []string{`"s"`}, Vals: []string{`"s"`}, OfType: []string{""}},
 		}})
 	}
+	// whatever pattern closed it: no embedded struct on a type cycle while the finding is open (the directed
+	// patterns above check for themselves; cycles can also close through union membership by promoted methods)
+	for try := 0; try < 8; try++ {
+		f := g.embeddedCycleField(root)
+		if f == nil || !o.gated("embedded_struct_in_cycle") {
+			break
+		}
+		f.Embedded = false // an ordinary field named after the type
+		if strings.HasPrefix(f.Tag, `json:",`) || f.Tag == `json:",omitempty"` {
+			f.Tag = ""
+		}
+	}
 	g.regroup(root.Files[0])
 	// drop the sibling file if it stayed empty
 	if len(root.Files[1].Decls) == 0 && len(root.Files[1].Consts) == 0 && root.Files[1].Raw == "" {
@@ -1128,7 +1141,10 @@ func (g *gen) pruneUnusedPkgs() {
 
 // embeddedInCycle reports whether some struct S embeds a struct E such that E reaches S
 // (E is then still incomplete when S is analysed).
-func (g *gen) embeddedInCycle(pkg *Pkg) bool {
+func (g *gen) embeddedInCycle(pkg *Pkg) bool { return g.embeddedCycleField(pkg) != nil }
+
+// embeddedCycleField returns an embedded field whose struct type reaches the embedding struct, or nil.
+func (g *gen) embeddedCycleField(pkg *Pkg) *Field {
 	unions := g.spec.Unions()[pkg.Path]
 	decls := map[string]*Decl{}
 	for _, f := range pkg.Files {
@@ -1185,12 +1201,18 @@ func (g *gen) embeddedInCycle(pkg *Pkg) bool {
 		}
 		return false
 	}
-	for _, d := range decls {
+	var names []string
+	for n := range decls {
+		names = append(names, n)
+	}
+	sort.Strings(names)
+	for _, n := range names {
+		d := decls[n]
 		for _, f := range d.Fields {
 			if f.Embedded && f.Type.K == TRef && reaches(f.Type.Name, d.Name) {
-				return true
+				return f
 			}
 		}
 	}
-	return false
+	return nil
 }
